@@ -37,25 +37,26 @@ CHECKS.update({
    technique="Coq proof (check/real decision equivalence) over a mirror model + paired differential runs",
    design="5/C06"),
 })
-NOTE_DOC = (NOTE_COMMON + "Usage.v is a REFERENCE model written from rash_book/src/syntax.md and parser.md, not a mirror of the regex-rewriting parser (parse_help/parse_usage/expand_usages/extend_usages are not modelled): "
+NOTE_DOC = (NOTE_COMMON + "Tail.v is a MIRROR of the last stage of docopt::parse (word classification, `+` propagation, seeding, first matching usage in sorted order, per-word binding, merge_json, help check), fed through the rash_verif hook with the normalised argv, the sorted expanded usages and the option descriptors the code itself computed; on ~6000 sampled pairs per C07 run its JSON must equal the implementation's exactly. "
+            "Usage.v is a REFERENCE model written from rash_book/src/syntax.md and parser.md, not a mirror of the regex-rewriting parser (parse_help/parse_usage/expand_usages/extend_usages are not modelled): "
             "the theorems certify the oracle; the code is tied to it only by the bounded sweep (usage sections of 1-3 elements, 1-2 lines, fixed options section; argv length <= 4/5). "
             "Usage-level classes K13-* and argv-level classes K12/K20 are suppressed; inside them nothing is checked. ")
 CHECKS.update({
  "C07": dict(
-   text="Theorems: the executable reference matcher accepts with bindings b iff the inductive relation Matches (documented language) holds (soundness and completeness, by induction on pattern/derivation, no bound on pattern or argv size); every derivation accounts for every token exactly once and in order; the rearrangement check is sound. "
-        "Tie: for every enumerated (usage, argv) pair the implementation accepts, its variables must equal one of the reference bindings of argv or of a Coq-validated rearrangement of its option tokens.",
+   text="Theorems: the executable reference matcher accepts with bindings b iff the inductive relation Matches (documented language) holds (soundness and completeness, by induction on pattern/derivation, no bound on pattern or argv size); every derivation accounts for every token exactly once and in order; the rearrangement check is sound; on the tail mirror a matching usage binds every argument once, positionals verbatim. "
+        "Tie: tail mirror = implementation (exact JSON) on sampled pairs; and for every enumerated (usage, argv) pair the implementation accepts, its variables must equal one of the reference bindings of argv or of a Coq-validated rearrangement of its option tokens.",
    note=NOTE_DOC, technique="Coq-verified reference matcher (sound+complete) + bounded exhaustive differential sweep against docopt::parse", design="5/C07"),
  "C08": dict(
    text="Theorems: soundness and completeness of the reference matcher (a reported rejection is a real member of the documented language, none is missed) and the language laws Repeat-unroll, zero-or-more two ways, usage lines = alternation. "
         "Tie: every pair the reference accepts must be accepted by the implementation, outside the recorded usage classes.",
    note=NOTE_DOC + "This is the property where the proof says least about the code itself.", technique="Coq-verified reference matcher + bounded exhaustive differential sweep", design="5/C08"),
  "C09": dict(
-   text="Theorem: choosing the first matching usage of the SORTED expanded usages is independent of the order the hash set yields them (insertion sort is canonical on permutations: total antisymmetric transitive byte order, proved for Coq strings), with the pre-fix first-match-in-iteration-order refuted by witness (K11, fixed). "
+   text="Theorem: choosing the first matching usage of the SORTED expanded usages is independent of the order the hash set yields them (insertion sort is canonical on permutations: total antisymmetric transitive byte order, proved for Coq strings), with the pre-fix first-match-in-iteration-order refuted by witness (K11, fixed); the same for the whole tail mirror (acceptance and variables). The order the code tries the usages in (hook) must equal Coq's sort of the same strings. "
         "Tie: every accepted pair (and a sample of rejected ones) is re-parsed 8/32 times in one process and in a different process; any two differing outcomes are a violation.",
    note=NOTE_DOC + "That std's RandomState really produces different iteration orders is runtime behaviour (observed before the fix: 23/17 split in 40 calls). The model `choose` is not executed against the code (the matcher it abstracts over is the code's own).",
    technique="Coq proof of order-independence of sorted choice + repeated-parse determinism sweep", design="5/C09"),
  "C10": dict(
-   text="Theorem: every documented spelling of a token sequence (short/long, --opt=V, --opt V, -oV, -o V, -o=V, stacked flags) canonicalises to that sequence for every well-formed option table (the sweep's table is proved well-formed), hence equivalent spellings denote the same tokens. "
+   text="Theorem: every documented spelling of a token sequence (short/long, --opt=V, --opt V, -oV, -o V, -o=V, stacked flags) canonicalises to that sequence for every well-formed option table (the sweep's table is proved well-formed), hence equivalent spellings denote the same tokens; on the tail mirror every declared option key is present in the initial variables. "
         "Tie: every accepted pair with options is re-spelled in all documented ways; a re-spelling is judged only if Coq's canon gives the same tokens; the implementation's variables must be identical, and every accepted result must contain every declared option key and every command key.",
    note=NOTE_DOC, technique="Coq proof (canonicalisation of spellings) + differential re-spelling sweep and shape check", design="5/C10"),
 })
